@@ -25,10 +25,10 @@ func (n *Node) Diff(n2 *Node) *NodeDiff {
 	nd.Removed.Id = r
 	nd.DiffCount += c
 
-	if n.Type != n2.Type {
-		nd.Added.Type = n2.Type
-		nd.DiffCount++
-	}
+	at, rt, c := diff(n.Type, n2.Type)
+	nd.Added.Type = at
+	nd.Removed.Type = rt
+	nd.DiffCount += c
 
 	a, r, c = diff(n.Name, n2.Name)
 	nd.Added.Name = a
